@@ -47,6 +47,19 @@ def build_noshim(log):
     rc, out = lib.sh(['go', 'build', '-tags', 'verif,noshim', '-overlay', path, '-o', out_bin, './cmd/c12gen'], cwd=lib.HARNESS, env=lib.goenv(), timeout=3600)
     return (out_bin if rc == 0 else None), [os.path.basename(b) for b in broken]
 
+def ep_verdict(fi, fm):
+    """Spec.EntryPoints.judge on the observation (res, errs, same) against the driver's want="""
+    w, err, errs, same = fm.get('want'), fi.get('outcome') == 'err', int(fi.get('errs', '0') or 0), fi.get('same', '-')
+    if w == 'refuse' and not (err and same != '0'):
+        return 'must be refused with an error and leave the manifest as it is (got %s, manifest unchanged=%s)' % (fi.get('outcome'), same)
+    if w == 'succeed' and err:
+        return 'must succeed, an error was returned'
+    if w == 'flagged' and not (err or errs > 0):
+        return 'a requirement that cannot be resolved passed silently: no error and no resolve error in the result'
+    if w not in ('refuse', 'succeed', 'flagged'):
+        return 'driver did not judge the case'
+    return None
+
 
 def run(ctx):
     ctx.trusted = ['Lean 4.33.0 kernel', 'axioms: propext, Quot.sound, Classical.choice at most (see theorems.*.axioms)',
@@ -124,6 +137,10 @@ def run(ctx):
                 verdict = 'FixVulns panicked'
             elif r in ('err2', 'ok-rereaderr'):
                 verdict = 'the manifest FixVulns wrote cannot be analysed again (%s)' % r
+            elif r == 'ok' and fi.get('want', '?') != '?' and fi.get('want') != fi.get('orig'):
+                verdict = ('end-to-end: the vulnerabilities FixVulns reports for the original manifest (%s) are not the ones the options select (%s: present in the '
+                           'resolved graph, on the explicit list if there is one, not ignored by id or alias, not dev-only unless DevDeps, severity >= MinSeverity or unknown, '
+                           'within MaxDepth; recomputed by the harness from the graph)' % (fi.get('orig'), fi.get('want')))
             elif r == 'ok' and fm.get('spec') == '0':
                 verdict = 'end-to-end: ' + fm.get('why', '?') + ' (orig=%s fixed=%s introduced=%s second analysis=%s; entries before=%s after=%s reported updates=%s)' % (fi['orig'], fi['fixed'], fi['intro'], fi['after'], fi['rb'], fi['ra'], fi['ru'])
             elif r == 'ok' and fm.get('spec') != '1':
@@ -132,6 +149,12 @@ def run(ctx):
                 continue
             if verdict and sum(1 for v in ctx.violations if v[2]) < 3:
                 ctx.violation('specification violated by the implementation: ' + verdict, [case + '\t' + impl + '\t' + ask + ' -> ' + mod])
+            continue
+        if op == 'ep':
+            ctx.add_case(case, True, 'ep want=%s outcome=%s' % (fm.get('want'), fi.get('outcome')))
+            v = 'FixVulns / Update panicked' if fi.get('_') == 'panic' else ep_verdict(fi, fm)
+            if v:
+                ctx.violation('specification violated by the implementation: entry point, kind %s (see Spec/EntryPoints.lean): %s' % (case.split(' ')[1], v), [case + '\t' + impl + '\t' + mod])
             continue
         nontrivial = ('sel=-' not in impl) if op == 'cp' else ('ups=-' not in impl or 'fixed=-' not in impl)
         ctx.add_case(case, nontrivial, '%s %s' % (op, 'some' if nontrivial else 'none'))
